@@ -229,7 +229,9 @@ func (th *Thread) runBlock(fr *frame) {
 			v := th.get(fr, in.X)
 			m.panicPath("explicit panic: " + th.describe(v))
 		case *ssa.Store:
-			m.store(th.get(fr, in.Addr).(Ptr), th.get(fr, in.Val))
+			sp := th.get(fr, in.Addr).(Ptr)
+			m.accessPtr(th, sp, true)
+			m.store(sp, th.get(fr, in.Val))
 		case *ssa.MapUpdate:
 			th.mapUpdate(th.get(fr, in.Map), th.get(fr, in.Key), th.get(fr, in.Value))
 		case *ssa.Send:
